@@ -170,11 +170,19 @@ pub fn rule_zero<S: Src>(s: &mut S, c: &ZeroCase) {
             s.assume(slot == w);
         }
     }
+    // as in the transfer function, the out maps start from the in maps (the instruction
+    // overwrites neither the register nor the slot in this obligation)
     let mut out: AvailableValueMap<Register> = AvailableValueMap::new();
+    if let Some(v) = mkv(c.regv, x) {
+        out.insert(mk::reg(c.reg), v);
+    }
     let mut mem_out: AvailableValueMap<MemoryLocation> = AvailableValueMap::new();
+    if let Some(v) = mkv(c.memv, y) {
+        mem_out.insert(MemoryLocation::StackOffset(off), v);
+    }
     rules::rule_zero_to_const(&mut out, &inm, &mut mem_out, &mem_in);
     for (r, v) in &out {
-        crate::seen!(true, "I:a register fact was normalised");
+        crate::seen!(matches!(v, AvailableValue::Constant(_)), "I:a register fact was normalised");
         assert!(inm.get(r).is_some(), "[C01] rule_zero_to_const wrote a register it had no fact about");
         if let Some(ok) = gamma_reg(v, r.to_num(), &entry, &cur) {
             assert!(ok, "[C01] rule_zero_to_const changed the meaning of a register fact");
@@ -199,44 +207,22 @@ pub struct LoadCase {
     pub slotv: V,
 }
 
-/// rule_expand_address_for_load followed by rule_value_from_stack (the two are
-/// a pipeline: the first names the memory word, the second substitutes what
-/// the stack is known to hold there).
-pub fn rule_load<S: Src>(s: &mut S, c: &LoadCase) {
+/// rule_expand_address_for_load: names the memory word a load reads.
+pub fn rule_expand<S: Src>(s: &mut S, c: &LoadCase) {
     let wi = s.choice(5) as usize;
-    let (imm, off, y, other_off, z) = (s.i32(), s.i32(), s.i32(), s.i32(), s.i32());
+    let (imm, off) = (s.i32(), s.i32());
     let node = mk::load(mk::LOAD[wi], c.rd, c.base, imm);
     let (width, signed) = [(Width::B, true), (Width::B, false), (Width::H, true), (Width::H, false), (Width::W, true)][wi];
     let mut inm: AvailableValueMap<Register> = AvailableValueMap::new();
     if let Some(v) = mkv(c.basev, off) {
         inm.insert(mk::reg(c.base), v);
     }
-    // no wrap-around in the offset arithmetic the analyzer does on i32 (checked separately: C06)
-    let total = (off as i64) + (imm as i64);
-    s.assume(total >= i32::MIN as i64 && total <= i32::MAX as i64);
-    let mut mem_in: AvailableValueMap<MemoryLocation> = AvailableValueMap::new();
-    if let Some(v) = mkv(c.slotv, y) {
-        mem_in.insert(MemoryLocation::StackOffset(total as i32), v);
-    }
-    // a second, different slot that must not be confused with the first
-    s.assume(other_off != total as i32);
-    mem_in.insert(MemoryLocation::StackOffset(other_off), AvailableValue::Constant(z));
-
-    let keys = [c.rd, c.base, vreg(c.basev), vreg(c.slotv), 2];
+    let keys = [c.rd, c.base, vreg(c.basev), 2];
     let entry = draw_rf(s, &keys);
     let pre = draw_rf(s, &keys);
     let word = s.u32(); // the 32-bit word at the load address
     assume_gamma(s, &inm, &entry, &pre);
-    // gamma(mem_in) in the pre-state, for the slot the load addresses (when it is that slot)
     let addr = pre.get(c.base).wrapping_add(imm as u32);
-    let slot_addr = entry.get(2).wrapping_add(total as u32);
-    if let Some(v) = mem_in.get(&MemoryLocation::StackOffset(total as i32)) {
-        if let Some(w) = mem_val(v, &entry, &pre) {
-            if addr == slot_addr {
-                s.assume(word == w);
-            }
-        }
-    }
     let mut out: AvailableValueMap<Register> = AvailableValueMap::new();
     rules::rule_expand_address_for_load(&node, &mut out, &inm);
     let mut post = pre;
@@ -252,16 +238,63 @@ pub fn rule_load<S: Src>(s: &mut S, c: &LoadCase) {
             assert!(post.get(c.rd) == word || c.rd == 0, "[C01] whole-word memory value claimed for a load that does not deliver the whole word");
         }
     }
+    crate::witness!(true, "W:end");
+    core::mem::forget((node, inm, out));
+}
+
+/// rule_value_from_stack: substitutes what the stack (or a CSR) is known to hold
+/// for "the word at sp_entry + off" / "the value of the CSR".
+pub fn rule_from_stack<S: Src>(s: &mut S, c: &LoadCase) {
+    let (off, y, other_off, z, csrn) = (s.i32(), s.i32(), s.i32(), s.i32(), s.u32());
+    let via_csr = c.basev == V::InCsr;
+    let node = mk::load(mk::LOAD[4], c.rd, c.base, 0);
+    let mut out: AvailableValueMap<Register> = AvailableValueMap::new();
+    let mut mem_in: AvailableValueMap<MemoryLocation> = AvailableValueMap::new();
+    if via_csr {
+        out.insert(mk::reg(c.rd), AvailableValue::ValueInCsr(CsrImm::new(csrn)));
+        if let Some(v) = mkv(c.slotv, y) {
+            mem_in.insert(MemoryLocation::CsrRegister(CsrImm::new(csrn)), v);
+        }
+    } else {
+        out.insert(mk::reg(c.rd), AvailableValue::MemoryAtOriginalRegister(mk::reg(c.base), off));
+        if let Some(v) = mkv(c.slotv, y) {
+            mem_in.insert(MemoryLocation::StackOffset(off), v);
+        }
+    }
+    // a second, different slot that must not be confused with the first
+    s.assume(other_off != off);
+    mem_in.insert(MemoryLocation::StackOffset(other_off), AvailableValue::Constant(z));
+    let keys = [c.rd, c.base, vreg(c.slotv), 2];
+    let entry = draw_rf(s, &keys);
+    let pre = draw_rf(s, &keys);
+    // the value the instruction delivers into rd: the word at E[base]+off (or the old CSR content)
+    let word = s.u32();
+    // gamma(mem_in) in the pre-state: that word / CSR content is what the fact says
+    let key = if via_csr { MemoryLocation::CsrRegister(CsrImm::new(csrn)) } else { MemoryLocation::StackOffset(off) };
+    if let Some(v) = mem_in.get(&key) {
+        if let Some(w) = mem_val(v, &entry, &pre) {
+            s.assume(word == w);
+        }
+    }
     rules::rule_value_from_stack(&node, &mut out, &mem_in);
+    let mut post = pre;
+    post.set(c.rd, word);
     for (r, v) in &out {
-        assert!(r.to_num() == c.rd, "[C01] rule_value_from_stack wrote a register the load does not write");
+        assert!(r.to_num() == c.rd, "[C01] rule_value_from_stack wrote a register the instruction does not write");
+        // a stack fact is only about the stack pointer's frame
+        if !via_csr && c.base != 2 {
+            assert!(matches!(v, AvailableValue::MemoryAtOriginalRegister(_, _)), "[C01] rule_value_from_stack used a stack fact for memory that is not relative to sp");
+        }
         if let Some(ok) = gamma_reg(v, r.to_num(), &entry, &post) {
-            crate::seen!(true, "I:value_from_stack produced a claimed kind of value");
-            assert!(ok, "[C01] rule_value_from_stack derived a value that is false for some machine state");
+            // "rd = R[q]+k" read back into q itself (rd == q) describes the value q had BEFORE the load
+            if !matches!(v, AvailableValue::RegisterWithScalar(q, _) if q.to_num() == c.rd) {
+                crate::seen!(true, "I:value_from_stack produced a claimed kind of value");
+                assert!(ok, "[C01] rule_value_from_stack derived a value that is false for some machine state");
+            }
         }
     }
     crate::witness!(true, "W:end");
-    core::mem::forget((node, inm, mem_in, out));
+    core::mem::forget((node, mem_in, out));
 }
 
 pub struct StackCase {
@@ -278,9 +311,6 @@ pub fn rule_to_stack<S: Src>(s: &mut S, c: &StackCase) {
     }
     let mut mem: AvailableValueMap<MemoryLocation> = AvailableValueMap::new();
     mem.insert(MemoryLocation::StackOffset(off), AvailableValue::RegisterWithScalar(mk::reg(c.reg), k));
-    // the analyzer adds offsets in i32 (overflow is C06's business, checked by rule_to_stack_nopanic)
-    let total = (x as i64) + (k as i64);
-    s.assume(total >= i32::MIN as i64 && total <= i32::MAX as i64);
     let keys = [c.reg, vreg(c.regv), 2];
     let entry = draw_rf(s, &keys);
     let cur = draw_rf(s, &keys);
